@@ -447,7 +447,12 @@ struct ModelRun
 
     // ---- scans -------------------------------------------------------------------------------
     // mode 0: live keys; 1: live + absent; 2: + expired-not-removed (they must miss: C04)
-    bool scan(int mode, const std::string& miss_tags)
+    int scan_cursor{0};
+
+    // `full` = every key of the universe; otherwise, for universes above 48 keys, a rotating window of 24 keys
+    // (large universes would otherwise make every step cost hundreds of lookups; explicit `scan` operations, the scan after
+    // clean_expired_values() and the final scan are always full)
+    bool scan(int mode, const std::string& miss_tags, bool full = false)
     {
         bool                looked = false;
         const std::set<int> z0     = M.Z; // statuses as of the start of the scan
@@ -456,9 +461,15 @@ struct ModelRun
                 M.call_start_purge(); // ut_map / ut_set: the first lookup of the scan purges
             looked = true;
         };
-        for (int k = 0; k < x.c.uni; ++k)
+        const bool windowed = !full && x.c.uni > 48;
+        const int  count    = windowed ? 24 : x.c.uni;
+        const int  start    = windowed ? scan_cursor : 0;
+        if (windowed)
+            scan_cursor = (scan_cursor + 24) % x.c.uni;
+        for (int i = 0; i < count; ++i)
         {
-            auto it = M.live.find(k);
+            const int k  = (start + i) % x.c.uni;
+            auto      it = M.live.find(k);
             if (it != M.live.end())
             {
                 uint64_t v  = 0;
@@ -701,9 +712,15 @@ struct ModelRun
 
         // which previously live keys are gone?
         std::vector<int> lost;
+        // (ut_map/ut_set never evict: with many live keys only a rotating sample is re-checked here, the windowed scans cover the rest)
+        const bool sample = !M.bounded() && L0.size() > 48;
+        size_t     idx    = 0;
         for (int k : L0)
         {
+            ++idx;
             if (k == o.k)
+                continue;
+            if (sample && (idx + static_cast<size_t>(step)) % 8 != 0)
                 continue;
             uint64_t pv = 0;
             if (!pfind(k, pv))
@@ -858,7 +875,7 @@ struct ModelRun
                     std::string sig = n.m.signature() + "#" + std::to_string(n.count) + "#" + std::to_string(n.f8_dev);
                     if (seen.insert(sig).second)
                         next.push_back(std::move(n));
-                    if (next.size() > 20000)
+                    if (next.size() > 4000)
                     {
                         overflow = true;
                         return next;
@@ -930,8 +947,15 @@ struct ModelRun
         // observe: every key that is live in at least one candidate, plus keys absent in all
         RangeObs ob;
         ob.count = r.n;
+        // with one candidate the observation only checks it; then, for large universes, the addressed keys plus a sample suffice
+        std::set<int> addressed;
+        for (auto& e : el)
+            addressed.insert(e.k);
+        const bool partial = cands.size() == 1 && x.c.uni > 48;
         for (int k = 0; k < x.c.uni; ++k)
         {
+            if (partial && !addressed.count(k) && (k + step) % 8 != 0)
+                continue;
             bool live_some = false, z_some = false;
             for (auto& cd : cands)
             {
@@ -1387,7 +1411,7 @@ struct ModelRun
                         x.fail(step, "C17", "clean_leaves_only_live", "size() after clean = " + std::to_string(s1) + ", live " + std::to_string(nl));
                     M.Z.clear();
                     invariants(true, ob1);
-                    scan(2, "C17,C03,C05");
+                    scan(2, "C17,C03,C05", true);
                     break;
                 }
                 case cs::O_AGE:
@@ -1450,7 +1474,7 @@ struct ModelRun
                 case cs::O_ADVTO: do_advance_to(o); continue;
                 case cs::O_SCAN:
                 {
-                    const bool looked = scan(o.mode, since_adv && M.ttl_kind() ? "C05,C03" : "C03");
+                    const bool looked = scan(o.mode, since_adv && M.ttl_kind() ? "C05,C03" : "C03", true);
                     invariants(looked, observe());
                     continue;
                 }
@@ -1541,7 +1565,7 @@ Result run_model(const cs::Case& c, const Options& opt)
         // final full scan including expired entries (C04)
         run.note_expired();
         run.M.expire(vt::now());
-        run.scan(2, "C03");
+        run.scan(2, "C03", true);
         x.res.labels["tracked_constructed"] = vv::tracked_stats::constructed().load();
     }
     catch (const Stop&)
